@@ -130,7 +130,7 @@ func (ed Editor) AlignOpts(align Alignment, width int, opts Options) Editor {
 						if rightRemoveSpace > rightSpace {
 							rightRemoveSpace = rightSpace
 						}
-						firstLine = firstLine.Sub(leftSpace, -rightRemoveSpace)
+						firstLine = firstLine.Sub(leftSpace, firstLine.Len()-rightRemoveSpace)
 					}
 
 					bl.Set(0, firstLine)
@@ -150,7 +150,7 @@ func (ed Editor) AlignOpts(align Alignment, width int, opts Options) Editor {
 						if leftRemoveSpace > leftSpace {
 							leftRemoveSpace = leftSpace
 						}
-						lastLine = lastLine.Sub(leftRemoveSpace, -rightSpace)
+						lastLine = lastLine.Sub(leftRemoveSpace, lastLine.Len()-rightSpace)
 					}
 
 					bl.Set(bl.Len()-1, lastLine)
